@@ -25,7 +25,7 @@ Definition pk_r (d : draws) : N := snd (fst (fst (fst (pop_pk d)))).
 Definition pk_aad (d : draws) : N := snd (fst (fst (pop_pk d))).
 Definition bump (se : session) : session :=
   {| s_enc := s_enc se; s_dec := s_dec se; s_old := s_old se; s_await := s_await se;
-     s_counter := s_counter se + 1 |}.
+     s_counter := s_counter se + 1; s_used := s_used se |}.
 Lemma encrypt_message_eq c s na se m :
   encrypt_message c s na se m =
   ({| hs := hs s; dr := snd (pop_pk (dr s)); outs := outs s |}, bump se,
@@ -39,10 +39,10 @@ Proof. split; [apply incl_refl | cbn; lia]. Qed.
 
 (* ------------------------------------------------------------------------------------------ *)
 
-Lemma Quiet_is_awaiting s na : Quiet s (fst (is_awaiting_session s na)).
+Lemma Quiet_is_awaiting c s na : Quiet s (fst (is_awaiting_session c s na)).
 Proof.
-  unfold is_awaiting_session. pose proof (QH_sess_get (hs s) na) as H.
-  destruct (sess_get (hs s) na) as [h se]. cbn [fst] in H.
+  unfold is_awaiting_session. pose proof (QH_sess_get c (hs s) na) as H.
+  destruct (sess_get c (hs s) na) as [h se]. cbn [fst] in H.
   destruct se; cbn [fst]; apply Quiet_with_hs; exact H.
 Qed.
 
@@ -52,13 +52,13 @@ Proof.
   unfold send_request.
   destruct (existsb (N.eqb (c_addr ct)) (cfg_listen c)); [apply Quiet_refl |].
   set (na := c_naddr ct).
-  assert (Ha : Quiet s (fst (if has_challenge (hs s) na then (s, true) else is_awaiting_session s na))).
+  assert (Ha : Quiet s (fst (if has_challenge (hs s) na then (s, true) else is_awaiting_session c s na))).
   { destruct (has_challenge (hs s) na); [apply Quiet_refl | apply Quiet_is_awaiting]. }
-  destruct (if has_challenge (hs s) na then (s, true) else is_awaiting_session s na) as [s1 awaiting].
+  destruct (if has_challenge (hs s) na then (s, true) else is_awaiting_session c s na) as [s1 awaiting].
   cbn [fst] in Ha. destruct awaiting; cbn [fst].
   - apply Quiet_k_with_hs; [exact Ha | apply QH_push_pending].
-  - pose proof (QH_sess_get (hs s1) na) as Hg. pose proof (sess_get_got (hs s1) na) as Hgot.
-    destruct (sess_get (hs s1) na) as [h2 se]. cbn [fst snd] in Hg, Hgot.
+  - pose proof (QH_sess_get c (hs s1) na) as Hg. pose proof (sess_get_got c (hs s1) na) as Hgot.
+    destruct (sess_get c (hs s1) na) as [h2 se]. cbn [fst snd] in Hg, Hgot.
     destruct se as [se |].
     + rewrite encrypt_message_eq. cbn [fst].
       apply Quiet_k_with_hs; [| apply QH_ar_insert].
@@ -96,12 +96,16 @@ Proof. intros H. split; [exact H | apply OutsExt_same; reflexivity]. Qed.
 Lemma QuietF_emit s o : failed_out o -> QuietF s (emit s o).
 Proof. intros H. split; [apply QH_refl | apply OutsExt_emit; exact H]. Qed.
 
+Lemma QuietF_remove_expired c s : QuietF s (remove_expired_sessions c s).
+Proof. split; [apply QH_remove_expired_sessions | apply remove_expired_sessions_outs]. Qed.
+
 Lemma QuietF_fail_session c s na err rm : QuietF s (fail_session c s na err rm).
 Proof.
   unfold fail_session.
-  set (s1 := if rm then with_hs s (sess_remove (hs s) na) else s).
+  set (s1 := if rm then with_hs (remove_expired_sessions c s) (sess_remove (hs (remove_expired_sessions c s)) na) else s).
   assert (H1 : QuietF s s1).
-  { unfold s1. destruct rm; [apply QuietF_with_hs; apply QH_sess_remove | apply QuietF_refl]. }
+  { unfold s1. destruct rm; [| apply QuietF_refl].
+    eapply QuietF_trans; [apply QuietF_remove_expired | apply QuietF_with_hs; apply QH_sess_remove]. }
   set (s2 := match alist_get na (pending (hs s1)) with Some l => _ | None => s1 end).
   assert (H2 : QuietF s1 s2).
   { unfold s2. destruct (alist_get na (pending (hs s1))) as [l |]; [| apply QuietF_refl].
@@ -147,9 +151,9 @@ Qed.
 Lemma Quiet_replay c s na skip now : Quiet s (replay_active_requests c s na skip now).
 Proof.
   unfold replay_active_requests.
-  pose proof (QH_sess_get (hs s) na) as Hg. pose proof (sess_get_got (hs s) na) as Hgot.
-  destruct (sess_get (hs s) na) as [h1 se]. cbn [fst snd] in Hg, Hgot.
-  destruct se as [se0 |]; [| apply Quiet_refl].
+  pose proof (QH_sess_get c (hs s) na) as Hg. pose proof (sess_get_got c (hs s) na) as Hgot.
+  destruct (sess_get c (hs s) na) as [h1 se]. cbn [fst snd] in Hg, Hgot.
+  destruct se as [se0 |]; [| apply Quiet_with_hs; exact Hg].
   set (reqs := filter _ _).
   pose proof (replay_fold c na reqs (with_hs s h1) se0 []) as Hf. cbn zeta in Hf.
   destruct (fold_left _ reqs (with_hs s h1, se0, [])) as [[s2 se2] pkts]. cbn [fst snd] in Hf.
@@ -174,9 +178,9 @@ Qed.
 Lemma Quiet_send_response c s na rid rb : Quiet s (send_response c s na rid rb).
 Proof.
   unfold send_response.
-  pose proof (QH_sess_get (hs s) na) as Hg. pose proof (sess_get_got (hs s) na) as Hgot.
-  destruct (sess_get (hs s) na) as [h1 se]. cbn [fst snd] in Hg, Hgot.
-  destruct se as [se |]; [| apply Quiet_refl].
+  pose proof (QH_sess_get c (hs s) na) as Hg. pose proof (sess_get_got c (hs s) na) as Hgot.
+  destruct (sess_get c (hs s) na) as [h1 se]. cbn [fst snd] in Hg, Hgot.
+  destruct se as [se |]; [| apply Quiet_with_hs; exact Hg].
   rewrite encrypt_message_eq. apply Quiet_k_send. apply Quiet_k_with_hs.
   - apply (Quiet_k_dr s (with_hs s h1)). apply Quiet_with_hs. exact Hg.
   - cbn [hs with_hs]. eapply QH_sess_put; [apply Hgot; reflexivity | apply bump_desc].
@@ -233,17 +237,18 @@ Definition fire_req_of (c : config) (s : st) (now d : N) : st :=
   match group_of d (nmap (hs s)) with
   | _ :: _ :: _ =>
     let (rev_order, d') := pop_rev (dr s) in
-    fire_group c {| hs := hs s; dr := d'; outs := outs s |}
+    fire_group (with_clock c (fire_time c d now)) {| hs := hs s; dr := d'; outs := outs s |}
       (if rev_order then rev (group_of d (nmap (hs s))) else group_of d (nmap (hs s))) d (fire_time c d now)
-  | _ => fire_group c s (group_of d (nmap (hs s))) d (fire_time c d now)
+  | _ => fire_group (with_clock c (fire_time c d now)) s (group_of d (nmap (hs s))) d (fire_time c d now)
   end.
 
 (* induction principle for the implicit tick: a reflexive, transitive relation that holds for one
-   round of request timers and for one challenge timer holds for fire_due *)
+   round of request timers and for one challenge timer holds for fire_due; a timer runs with the
+   clock set to its fire time *)
 Lemma fire_due_rel (R : st -> st -> Prop) c now :
   (forall a, R a a) -> (forall a b d, R a b -> R b d -> R a d) ->
   (forall s d, R s (fire_req_of c s now d)) ->
-  (forall s na t, R s (fire_challenge c s na t)) ->
+  (forall s na t, R s (fire_challenge (with_clock c t) s na t)) ->
   forall fuel s, R s (fire_due c s now fuel).
 Proof.
   intros Hr Ht Hreq Hch. induction fuel as [| f IH]; intros s; cbn [fire_due]; [apply Hr |].
